@@ -79,6 +79,45 @@ Proof.
 Qed.
 Print Assumptions C06_same_normalization.
 
+(* towards the composition law (PARTIAL): the validation part of validate() that follows a normalization which
+   recorded no error IS the plain validation model, one level of fuel up, run on the normalized document by a
+   validator that differs from a fresh one only in the _is_normalized flag -- which the model reads in the readonly
+   handler alone.  So for clean normalizations validate(d) = validate(normalized(d), normalize=False) up to that
+   flag; what is not proved is that the flag is irrelevant at every depth for schemas without readonly fields, and
+   the frame lemma for normalizations that did record errors *)
+Lemma validate_after_nil : forall fuel x, validate_after current fuel x [] = validate_ctx current (S fuel) x.
+Proof. intros fuel x. reflexivity. Qed.
+
+Theorem C06_composition_clean_partial :
+  forall fuel cfg schema doc update d',
+    normalize_ctx current fuel (root_ctx (set_is_normalized cfg false) schema doc update) = Ok (d', []) ->
+    api_validate current fuel cfg schema doc update true =
+      (do errs <- validate_ctx current (S fuel) (root_ctx (set_is_normalized cfg true) schema d' update);
+       Ok {| out_verdict := match errs with [] => true | _ => false end; out_doc := d'; out_errs := errs |}).
+Proof.
+  intros fuel cfg schema doc update d' H. unfold api_validate. rewrite H. cbn [bind].
+  rewrite validate_after_nil. reflexivity.
+Qed.
+Print Assumptions C06_composition_clean_partial.
+
+(* the readonly handler is where the flag is read: with a constraint that is not truthy it does not look at it *)
+Theorem C06_readonly_off_ignores_flag : forall x st c field v b,
+  truthy c = false ->
+  h_readonly current {| x_cfg := set_is_normalized (x_cfg x) b; x_schema := x_schema x; x_doc := x_doc x;
+                        x_dp := x_dp x; x_sp := x_sp x; x_update := x_update x |} st c field v = plain st.
+Proof. intros x st c field v b H. unfold h_readonly. rewrite H. reflexivity. Qed.
+
+(* the hypothesis is met: a coercion that succeeds is a clean normalization, and validation then still finds errors *)
+Example C06_example_clean :
+  let cfg := {| c_allow_unknown := VBool false; c_require_all := false; c_ignore_none := false; c_purge_unknown := false;
+                c_purge_readonly := false; c_is_child := false; c_is_normalized := false; c_root_doc := VNone;
+                c_rules_reg := []; c_schema_reg := [] |} in
+  let schema := [(KStr "a", VDict [(KStr "coerce", VStr "to_int"); (KStr "min", VInt 3)])] in
+  normalize_ctx current 10 (root_ctx (set_is_normalized cfg false) schema [(KStr "a", VStr "1")] false) = Ok ([(KStr "a", VInt 1)], []) /\
+  match validate_ctx current 11 (root_ctx (set_is_normalized cfg true) schema [(KStr "a", VInt 1)] false) with
+  | Ok (_ :: _) => True | _ => False end.
+Proof. vm_compute. split; [reflexivity|exact I]. Qed.
+
 Example C06_example :
   let cfg := {| c_allow_unknown := VBool false; c_require_all := false; c_ignore_none := false; c_purge_unknown := false;
                 c_purge_readonly := false; c_is_child := false; c_is_normalized := false; c_root_doc := VNone;
